@@ -1362,8 +1362,15 @@ def _islice(B, I, it, *a):
     return IterV(items[slice(*a)])
 
 
-def _attrgetter(B, I, name):
-    return Builtin("attrgetter", lambda I_, o: I_.getattr(o, name))
+def _attrgetter(B, I, name, *more):
+    if more or not isinstance(name, str):
+        raise Unknown("operator.attrgetter with several / symbolic names")
+
+    def get(I_, o):
+        for part in name.split("."):        # a dotted name is walked attribute by attribute
+            o = I_.getattr(o, part)
+        return o
+    return Builtin("attrgetter", get)
 
 
 def _itemgetter(B, I, k):
